@@ -218,12 +218,48 @@ PENDING_REASON = "check not built yet in this session (planned in DESIGN.md sect
 ALL = ["C%02d" % i for i in range(1, 19)]
 
 
+# what the later rounds of seeded changes and refactorings added to each claim (appended to the text above)
+ADDED = {
+    "C02": " Also states the feasible sets as each round builds them: the charge met exactly in the human rounds, demand ceilings and never-rising "
+           "feed/biofuel totals for every month class of the feed round.",
+    "C03": " Call sites are read by parameter (positional or keyword), construction helpers and dispatch helpers are looked through, and the bump's "
+           "(series, ceiling) slots are found by evaluating it with a zero request.",
+    "C04": " The extractor and the interpreter's two mapping methods are evaluated (loops over tables of foods, setattr and spread argument lists read "
+           "like the hand-written form); the floor value is evaluated from the call site; the saved table must replace the file (no append mode).",
+    "C05": " The LP's reading of the meat made available is part of the claim (stock = horizon total minus eaten; without storage month m bounded by month "
+           "m's slaughter); hidden state of process-wide objects is reported.",
+    "C06": " The below-zero clamp is accepted only on paths whose conditions make the unslaughtered herd negative; the labour budget is evaluated on a "
+           "small mixed herd.",
+    "C07": " The priority-ordered list must not be reordered in place by any routine it is handed to (two levels).",
+    "C08": " Whole-array (vectorised) forms are decided by generic-entry evaluation against the documented piecewise functions; the supply modules keep "
+           "no state between calls (class/module-level arrays included, writes through aliases); the cultivated-area ramp is the documented one.",
+    "C09": " A country without cropland has a zero greenhouse share; element types are inferred (integer results of np.piecewise / integer arrays that "
+           "receive fractional values are reported).",
+    "C10": " No class derived from UnitConversions replaces a conversion routine with logic of its own.",
+    "C11": " min_elementwise is evaluated (every nutrient of the result is the smaller operand's on every path, whatever the inclusion flags); the "
+           "label transformers compute label k from label k only; rounding spellings are normalised before the two arms of a predicate are compared.",
+    "C12": " In every stock balance the uses stand with the end-of-month stock against the stock carried in (also in months without a supply term).",
+    "C13": " The country-specific nuclear-winter setters are evaluated (ratio of year k = 1 + the row's change of year k); table-driven dispatch and "
+           "dict.update are read like the if/elif and store forms; a setter that only hands over to another setter is a setter of that family.",
+    "C14": " One-level copies of shared nested containers, process-wide objects that keep containers, and containers carried from one iteration of the "
+           "simulation / country loops into the run of the next are reported.",
+    "C15": " The map helper is followed when the loop uses its return value; file-writing helpers are recorded, not followed.",
+    "C17": " Every create_*_csv.py is executed abstractly at module level: the columns of one family are derived alike from one raw column each.",
+    "C18": " The evaluated fill reads shared priority tables of other classes and series summed before indexing; the re-timed series is what the "
+           "returned monthly constants carry; every potential increase of the bump is within the head-room of its series on every path.",
+}
+ROBUST = (" The rules read a canonical form of the syntax trees (comparison orientation, if/else polarity, else-after-return, keyword/positional "
+          "arguments, range(0, n), method values) and statement-level inlined helpers, so behaviour-preserving rewrites do not change the verdict "
+          "(72 sub-agent refactorings, corrected twins of the seeded vectorisations and 14 kinds of whole-tree probes are replayed by the thorough tier).")
+
+
 def main():
     checks = []
     for pid in ALL:
         if pid not in CLAIMED:
             continue
         text, note, tech, cat = CLAIMED[pid]
+        text = text + ADDED.get(pid, "") + ROBUST
         checks.append({
             "property_id": pid,
             "quick_cmd": f"/venv/bin/python -m allfedsa.cli {pid} --tier quick",
